@@ -83,7 +83,7 @@ def main(tier, seed, replay=None):
             bad = code in (40, 41, 42, 43)
             run.violation("state #%d, cached SVD factors: %s" % (k, num.SVD_CODES.get(code, "code %d" % code)),
                           {"case": c, "step": k, "observe": r["steps"][k]["v"], "svd": r["steps"][k + 2]["v"], "coq_term": t},
-                          key=("nalgebra-svd-not-a-decomposition" if code == 42 else None))
+                          key=("nalgebra-svd-not-a-decomposition" if code == 42 and (r["steps"][k + 2]["v"] or {}).get("same_as_direct_nalgebra") is True else None))
     codes = coq_eval("C01", num.HEADER, terms, per_file_timeout=1800)
     hist = {}
     nskip = 0
